@@ -186,6 +186,16 @@ class RInt:
 
     def __round__(self, nd=None): return self
     def __trunc__(self): return self
+
+    def to_bytes(self, length=1, byteorder="big", *, signed=False):
+        code = {(1, True): "b", (2, True): "h", (4, True): "i", (8, True): "q", (1, False): "B", (2, False): "H", (4, False): "I", (8, False): "Q"}.get((length, bool(signed)))
+        if code is None or byteorder != "big":
+            raise Unsupported("R-mode to_bytes with an unusual width or byte order")
+        lo, hi = Packed._R[code]
+        if not bool(self >= lo) or not bool(self <= hi):
+            raise OverflowError("int too big to convert")
+        return Packed(">" + code, self)
+
     def __int__(self): raise Unsupported("int() of RInt reached C level")
     def __index__(self): raise Unsupported("index() of RInt reached C level")
 
@@ -378,6 +388,8 @@ class RRound:
     def __and__(self, o): return self.materialise() & o
     __rand__ = __and__
     def __neg__(self): return -self.materialise()
+    def __index__(self): raise Unsupported("index() of RRound reached C level")
+    def to_bytes(self, length=1, byteorder="big", *, signed=False): return self.materialise().to_bytes(length, byteorder, signed=signed)
     def __round__(self, nd=None): return self
     def __trunc__(self): return self
 
